@@ -100,9 +100,11 @@ def controls_of(fn, specs, align):
             group = entry
         else:
             group = ann if ann is not None else 'kr'
-        if dflt in ('m', 'n'):
+        # an explicit default always wins (0, 0.0 and False included); only
+        # a missing / None default takes the spec default
+        if isinstance(dflt, str) and dflt in ('m', 'n'):
             values = [float(specs[name])] if name in specs else [0.0]
-        elif is_num(dflt):
+        elif isinstance(dflt, bool) or is_num(dflt):
             values = [float(dflt)]
         else:
             values = [float(x) for x in dflt]
@@ -482,6 +484,14 @@ def selftest():
         pass
     else:
         raise AssertionError('lag list on scalar must be undecided')
+    # explicit falsy defaults win over a spec default; missing/None take it
+    fn6 = {'params': [['a', None, 0], ['b', 'ir', 0.0], ['c', 'tr', False],
+                      ['d', 'ar', [0, 0.5]], ['e', None, 'n']],
+           'rates': None, 'prepend': 0, 'tag': 100, 'wraps': []}
+    e = expected({'name': 'd', 'fn': fn6, 'specs': {
+        'a': 440.0, 'b': 441.0, 'c': 442.0, 'd': 443.0, 'e': 444.0}})
+    assert e['params'] == [0.0, 0.0, 0.0, 0.5, 0.0, 444.0], e['params']
+    assert e['names'] == {'b': 0, 'c': 1, 'd': 2, 'a': 4, 'e': 5}
     # call
     c5 = {'name': 'd', 'fn': fn3, 'call': {'pos': [3, 4], 'kw': [['z', 5]]}}
     assert call_expected(c5) == [['a', 3], ['b', 4], ['z', 5]]
